@@ -46,13 +46,14 @@ CONSTANTS M,            \* sequence-number modulus
           Windows,      \* network reordering bounds: a packet overtakes fewer than `window` older undelivered packets
           Modes,        \* subset of {"clean", "lossy", "dup", "pops", "all"}: what may happen besides reordering
           MaxLoss, MaxDup, MaxPopCalls,
+          MaxMidFlush,  \* Flush calls before the last push (the final Flush is always made)
           Algo,         \* "none" | "abstract" | "ring"
           Impl,         \* "asis" | "fixAB" | "fixABC"
           Sampling      \* TRUE: every choice is one seeded random draw (for -simulate)
 
-VARIABLES phase, par, frames, pkts, script, pending, nextIdx, sent, nloss, ndup, npop, sb, emitted, pushed, premOK, bad
+VARIABLES phase, par, frames, pkts, script, pending, nextIdx, sent, nloss, ndup, npop, nflush, sb, emitted, pushed, premOK, bad
 
-vars == <<phase, par, frames, pkts, script, pending, nextIdx, sent, nloss, ndup, npop, sb, emitted, pushed, premOK, bad>>
+vars == <<phase, par, frames, pkts, script, pending, nextIdx, sent, nloss, ndup, npop, nflush, sb, emitted, pushed, premOK, bad>>
 
 Pick(S) == IF Sampling THEN RandomSubset(1, S) ELSE S
 \* in sampling mode: true with probability num/10
@@ -213,7 +214,7 @@ MkPkts ==
 Init == /\ phase = "setup"
         /\ par = [maxLate |-> 0, delay |-> 0, startBack |-> 0, markers |-> TRUE, window |-> 1, mode |-> "clean"]
         /\ frames = <<>> /\ pkts = <<>> /\ script = <<>> /\ pending = {} /\ nextIdx = 1 /\ sent = {}
-        /\ nloss = 0 /\ ndup = 0 /\ npop = 0 /\ sb = SB0 /\ emitted = <<>>
+        /\ nloss = 0 /\ ndup = 0 /\ npop = 0 /\ nflush = 0 /\ sb = SB0 /\ emitted = <<>>
         /\ pushed = {} /\ premOK = TRUE /\ bad = {}
         /\ TLCSet(1, {})             \* per-worker register: failure classes already printed
 
@@ -223,7 +224,7 @@ Setup ==
         w \in Pick(Windows), md \in Pick(Modes) :
         par' = [maxLate |-> ml, delay |-> d, startBack |-> b, markers |-> mk, window |-> w, mode |-> md]
   /\ phase' = "frames"
-  /\ UNCHANGED <<frames, pkts, script, pending, nextIdx, sent, nloss, ndup, npop, sb, emitted, pushed, premOK, bad>>
+  /\ UNCHANGED <<frames, pkts, script, pending, nextIdx, sent, nloss, ndup, npop, nflush, sb, emitted, pushed, premOK, bad>>
 
 \* frames sharing a timestamp: in exhaustive runs whenever SameTs, when sampling only in "all" sessions
 SameChoices == IF ~SameTs THEN {FALSE}
@@ -237,7 +238,7 @@ AddFrame ==
   /\ \E size \in Pick(FrameSizes), same \in SameChoices :
         /\ FrameTotal + size <= MaxPackets
         /\ frames' = Append(frames, [size |-> size, same |-> same /\ frames # <<>>])
-  /\ UNCHANGED <<phase, par, pkts, script, pending, nextIdx, sent, nloss, ndup, npop, sb, emitted, pushed, premOK, bad>>
+  /\ UNCHANGED <<phase, par, pkts, script, pending, nextIdx, sent, nloss, ndup, npop, nflush, sb, emitted, pushed, premOK, bad>>
 
 EndFrames ==
   /\ phase = "frames" /\ frames # <<>>
@@ -245,7 +246,7 @@ EndFrames ==
   /\ pkts' = MkPkts
   /\ pending' = 1..Min(par.window, FrameTotal) /\ nextIdx' = Min(par.window, FrameTotal) + 1 /\ sent' = {}
   /\ phase' = "arrive"
-  /\ UNCHANGED <<par, frames, script, nloss, ndup, npop, sb, emitted, pushed, premOK, bad>>
+  /\ UNCHANGED <<par, frames, script, nloss, ndup, npop, nflush, sb, emitted, pushed, premOK, bad>>
 
 \* The network holds at most `window` packets: `pending` is the set of the (up to) `window` oldest
 \* packets not yet delivered or lost, any of which may come next -- a packet is thus overtaken only by
@@ -276,14 +277,14 @@ Deliver ==
         /\ PushStep(i)
         /\ TakeOut(i) /\ sent' = sent \cup {i}
         /\ premOK' = IF Algo = "none" THEN premOK ELSE (premOK /\ ArrivalOK(Anchors(pkts), pushed, i, par.maxLate))
-  /\ UNCHANGED <<phase, par, frames, pkts, nloss, ndup, npop, emitted, bad>>
+  /\ UNCHANGED <<phase, par, frames, pkts, nloss, ndup, npop, nflush, emitted, bad>>
 
 Lose ==
   /\ phase = "arrive" /\ pending # {} /\ nloss < MaxLoss /\ MayLose
   /\ Sampling => Chance(1)
   /\ \E i \in Pick(pending) : TakeOut(i)
   /\ nloss' = nloss + 1
-  /\ UNCHANGED <<phase, par, frames, pkts, script, sent, ndup, npop, sb, emitted, pushed, premOK, bad>>
+  /\ UNCHANGED <<phase, par, frames, pkts, script, sent, ndup, npop, nflush, sb, emitted, pushed, premOK, bad>>
 
 \* a packet that was delivered arrives once more (now or much later)
 Dup ==
@@ -291,7 +292,7 @@ Dup ==
   /\ Sampling => Chance(1)
   /\ \E i \in Pick(sent) : PushStep(i)
   /\ ndup' = ndup + 1
-  /\ UNCHANGED <<phase, par, frames, pkts, pending, nextIdx, sent, nloss, npop, emitted, premOK, bad>>
+  /\ UNCHANGED <<phase, par, frames, pkts, pending, nextIdx, sent, nloss, npop, nflush, emitted, premOK, bad>>
 
 Vec == [maxLate |-> par.maxLate, delay |-> par.delay, startBack |-> par.startBack, markers |-> par.markers,
         window |-> par.window, mode |-> par.mode,
@@ -357,7 +358,7 @@ PopOne ==
             /\ \/ Emit(<<>>)                                                \* Pop may return nil
                \/ \E r \in LegalRuns : Emit(<<RunTags(r)>>)
        [] OTHER -> UNCHANGED <<sb, emitted, bad>>
-  /\ UNCHANGED <<phase, par, frames, pkts, pending, nextIdx, sent, nloss, ndup, pushed, premOK>>
+  /\ UNCHANGED <<phase, par, frames, pkts, pending, nextIdx, sent, nloss, ndup, nflush, pushed, premOK>>
 
 PopAll ==
   /\ phase \in {"arrive", "drain"}
@@ -372,30 +373,40 @@ PopAll ==
                \/ \E r \in LegalRuns : Emit(<<RunTags(r)>>)
        [] OTHER -> UNCHANGED <<sb, emitted, bad>>
   /\ phase' = IF phase = "drain" /\ (Algo # "abstract" \/ emitted' = emitted) THEN "done" ELSE phase
-  /\ UNCHANGED <<par, frames, pkts, pending, nextIdx, sent, nloss, ndup, pushed, premOK>>
+  /\ UNCHANGED <<par, frames, pkts, pending, nextIdx, sent, nloss, ndup, nflush, pushed, premOK>>
 
 Flush ==
   /\ phase = "arrive" /\ pending = {}
   /\ script' = Log(-2)
   /\ sb' = IF Algo = "ring" THEN PurgeBuffers(sb, TRUE, par.delay, par.maxLate) ELSE sb
   /\ phase' = "drain"
-  /\ UNCHANGED <<par, frames, pkts, pending, nextIdx, sent, nloss, ndup, npop, emitted, pushed, premOK, bad>>
+  /\ UNCHANGED <<par, frames, pkts, pending, nextIdx, sent, nloss, ndup, npop, nflush, emitted, pushed, premOK, bad>>
 
-Next == Setup \/ AddFrame \/ EndFrames \/ Deliver \/ Lose \/ Dup \/ PopOne \/ PopAll \/ Flush
+\* Flush while packets are still under way (everything buffered is forced out; the stream goes on)
+MidFlush ==
+  /\ phase = "arrive" /\ pending # {} /\ pushed # {} /\ nflush < MaxMidFlush /\ MayPop /\ Algo # "abstract"
+  /\ Sampling => Chance(1)
+  /\ script' = Log(-2)
+  /\ nflush' = nflush + 1
+  /\ sb' = IF Algo = "ring" THEN PurgeBuffers(sb, TRUE, par.delay, par.maxLate) ELSE sb
+  /\ UNCHANGED <<phase, par, frames, pkts, pending, nextIdx, sent, nloss, ndup, npop, emitted, pushed, premOK, bad>>
+
+Next == Setup \/ AddFrame \/ EndFrames \/ Deliver \/ Lose \/ Dup \/ PopOne \/ PopAll \/ MidFlush \/ Flush
 
 Spec == Init /\ [][Next]_vars
 
 \* ---- what TLC checks -----------------------------------------------------------------------------
-mcview == <<phase, par, frames, pkts, pending, nextIdx, sent, nloss, ndup, npop, sb, emitted, pushed, premOK, bad>>
+mcview == <<phase, par, frames, pkts, pending, nextIdx, sent, nloss, ndup, npop, nflush, sb, emitted, pushed, premOK, bad>>
 ModelContiguousSameTs == "ContiguousSameTs" \notin bad
 ModelStartsAtHead     == "StartsAtHead" \notin bad
 ModelInOrder          == \A c \in bad : c \notin {"InOrder:repeat", "InOrder:older", "InOrder:other"}
 ModelNoPacketTwice    == \A c \in bad : c \notin {"NoPacketTwice:repeat", "NoPacketTwice:overlap"}
 
 \* the completeness premise of SampleBuilderOps, from the summarised history: npop counts Pop calls
-\* made before Flush, nloss / ndup losses and duplicates, premOK the per-push ArrivalOK
+\* made before the final Flush, nflush earlier Flush calls, nloss / ndup losses and duplicates, premOK
+\* the per-push ArrivalOK
 ModelPremise == /\ StreamPremise(pkts, M) /\ par.delay = 0
-                /\ nloss = 0 /\ ndup = 0 /\ npop = 0 /\ premOK
+                /\ nloss = 0 /\ ndup = 0 /\ npop = 0 /\ nflush = 0 /\ premOK
 ModelComplete == (phase = "done" /\ ModelPremise) => CompleteAfterFlush(pkts, emitted)
 
 \* the locations of the ring stay well formed: filled.head never overtakes filled.tail
